@@ -1,7 +1,7 @@
 # C07 -- searching returns exactly the first/last occurrence for any haystack and needle
 LEVEL = 'model_checking'
 EXPLANATION = ('find / find_last / contains / starts_with / ends_with (real code incl. find_cs/find_ci/compare_ci scanning loops) on an arbitrary haystack (ST::string state, both storage modes) '
-               'and an arbitrary needle given in all four forms (char, const char*, (pointer,length) in an exactly-sized object, ST::string), arbitrary 64-bit start/limit, both case modes, '
+               'and an arbitrary needle given in all four forms (char, const char*, (pointer,length) in an exactly-sized object, ST::string; plus the const char8_t* overloads), arbitrary 64-bit start/limit, both case modes, '
                'against the quantified definition (smallest/largest index of a full match inside the permitted range).')
 BOUNDS = {'quick': 'haystack <= 4 bytes (find_last: 3), needle <= 2 bytes, all byte values incl. NUL, start/limit: all 64-bit values',
           'thorough': 'haystack <= 6 bytes (find_last: 5), needle <= 3 bytes (covers self-overlapping needles such as "aab" in "aaab")'}
@@ -22,6 +22,10 @@ def queries():
                   qs.append(Q('%s_%s_%s' % (nm, 'heap' if heap else 'sso', tier), 'C07_find.c', 'string.cpp', config='small', defs={'OP': op, 'FORM': k, 'H': h, 'M': M, 'HAY_HEAP': heap}, unwind=max(h + 3, 6), tiers=(tier,),
                             loops=[(r'^vpx_memcmp\.', M + 1), (r'^match_at\.', M + 1)],
                             bound={'overload': nm, 'haystack': h, 'needle': M, 'start/limit': 'any 64-bit'}, timeout=600 if tier == 'quick' else 3000))
+    # the const char8_t* overload family (C++20): one query per overload group, in-object haystack
+    for op, k, nm, h in ((1, 14, 'find_char8', 3), (1, 15, 'find0_contains_char8', 3), (2, 10, 'find_last_char8', 3), (2, 11, 'find_last0_char8', 3), (3, 6, 'starts_ends_with_char8', 3)):
+        qs.append(Q('%s_sso_quick' % nm, 'C07_find.c', 'string.cpp', config='small', defs={'OP': op, 'FORM': k, 'H': h, 'M': 2, 'HAY_HEAP': 0}, unwind=6, tiers=('quick',),
+                    loops=[(r'^vpx_memcmp\.', 3), (r'^match_at\.', 3)], bound={'overload': nm, 'haystack': h, 'needle': 2, 'start/limit': 'any 64-bit'}, timeout=600))
     # self-overlapping needles ("aab" in "aaab") need haystack >= 4 and needle >= 3: one extra quick query per case mode path (find through the (pointer,length) form)
     qs.append(Q('find_pn_overlap_quick', 'C07_find.c', 'string.cpp', config='small', defs={'OP': 1, 'FORM': 1, 'H': 4, 'M': 3, 'HAY_HEAP': 1}, unwind=7, tiers=('quick',),
                 loops=[(r'^vpx_memcmp\.', 4), (r'^match_at\.', 4)], bound={'overload': 'find_pn', 'haystack': 4, 'needle': 3}, timeout=600))
